@@ -106,7 +106,7 @@ def register_repeats(reg):
     INV = 'all(implies(PROM(k), GOOD(k, v)) for k, v in self.rules_cache.items())'
     reg.specfun('PROM', [('k', 'any')], 'bool', doc='the cache key is one of the two repeat-rule key shapes')
     reg.specfun('GOOD', [('k', 'any'), ('v', 'any')], 'bool', doc='the cached non-terminal v matches what the key k stands for')
-    T5, T6 = 'tuple[int,int,any,any,bool]', 'tuple[int,int,any,any,str,bool]'
+    T5, T6 = 'tuple[int,int,any,any,any,bool]', 'tuple[int,int,any,any,str,any,bool]'      # (a, b, target, atom, ["opt",] filter flags of atom, keep_all_tokens)
     reg.axiom('good.repeat', [('k', T5), ('v', 'any')],
               'PROM(cast(k, any)) and GOOD(cast(k, any), v) == (LO(v) == k[0] * LO(k[2]) + k[1] * LO(k[3]) and HI(v) == k[0] * HI(k[2]) + k[1] * HI(k[3]))',
               ['GOOD(cast(k, any), v)'])
@@ -115,6 +115,7 @@ def register_repeats(reg):
               ['GOOD(cast(k, any), v)'])
     reg.axiom('good.ext', [('k', 'any'), ('v', 'any'), ('w', 'any')], 'implies(LO(v) == LO(w) and HI(v) == HI(w), GOOD(k, v) == GOOD(k, w))', [['GOOD(k, v)', 'GOOD(k, w)']])
     reg.contract('lark.load_grammar:EBNF_to_BNF._keep_all_tokens', assumed=True, kind='method', pure=True, params={'self': 'EBNF'}, returns='bool')
+    reg.contract('lark.load_grammar:EBNF_to_BNF._filtered_terminals', assumed=True, kind='method', pure=True, params={'self': 'EBNF', 'expr': 'any'}, returns='any')
     reg.contract('lark.load_grammar:EBNF_to_BNF._name_rule', assumed=True, kind='method', params={'self': 'EBNF', 'inner': 'str'}, returns='str', modifies=['self'],
                  ensures=['self.rules_cache is old(self.rules_cache)', 'self.new_rules is old(self.new_rules)', 'self.rule_options == old(self.rule_options)'])      # only the counter self.i moves
     # definitional: the non-terminal created for a helper rule matches what the rule's expansions match (name freshness: _name_rule's counter, assumed)
